@@ -116,6 +116,13 @@ func ruleFrame(name string) func(p *Prog, l *Ledger, tier string) {
 				seen = append(seen, ef.Loc)
 				continue
 			}
+			if base == "P0" && name == "Subtitles.Order" && ef.Loc == "elem([]*Item)" {
+				// the write-back of a decorated sort (E14-M3, decorated form) puts the cues of the list back into the list
+				if wb := orderWriteBack(p, fn); wb != nil && wb.Pos() == ef.Pos {
+					seen = append(seen, ef.Loc)
+					continue
+				}
+			}
 			bad++
 			what := "outside its frame"
 			if base != "P0" {
@@ -300,4 +307,27 @@ func ruleNoSharedStateIn(scope func(*Prog, *Ledger, string) []*ssa.Function, min
 		}
 		l.Min(rule, n, min)
 	}
+}
+
+// orderWriteBack: the store that puts the sorted cues back into the list when Order sorts a slice of (cue, start) pairs
+// (nil when Order is not of that form, or the form is not verified).
+func orderWriteBack(p *Prog, fn *ssa.Function) *ssa.Store {
+	isList := func(v ssa.Value) bool {
+		_, f, _ := loadedField(v)
+		return f == "Items"
+	}
+	for _, b := range fn.Blocks {
+		for _, ins := range b.Instrs {
+			c, ok := ins.(*ssa.Call)
+			if !ok {
+				continue
+			}
+			if sc := c.Call.StaticCallee(); sc != nil && sc.String() == "sort.SliceStable" {
+				if handled, ok, _, wb := decoratedStableSort(p, fn, c, isList); handled && ok {
+					return wb
+				}
+			}
+		}
+	}
+	return nil
 }
